@@ -45,7 +45,7 @@ type Input struct {
 	B    []byte
 }
 
-// pattern overwrites b in place. other is the "next packet" (nil for the fixed patterns).
+// pattern overwrites b in place.
 type pattern struct {
 	name  string
 	apply func(b []byte)
@@ -110,11 +110,10 @@ func decode(v6 bool, buf []byte) (message, error) {
 }
 
 func goTest(in Input, hist string, over []byte) string {
-	pkg, dec := "dhcpv4", "dhcpv4.FromBytes"
+	dec := "dhcpv4.FromBytes"
 	if in.V6 {
-		pkg, dec = "dhcpv6", "dhcpv6.FromBytes"
+		dec = "dhcpv6.FromBytes"
 	}
-	_ = pkg
 	switch hist {
 	case "H2":
 		return fmt.Sprintf(`func TestReplay(t *testing.T) {
@@ -241,6 +240,12 @@ func runInput(c *fw.Ctx, idx int, in Input, fixed []pattern, same []Input, other
 		cnt.unstable.Add(1)
 		return
 	}
+	guard := func(hist, pat string, f func()) {
+		if pv, stk := fw.Safe(f); pv != nil {
+			c.Report(fw.Violation{Fingerprint: version(in.V6) + "|panic|" + fw.PanicSite(stk), Order: order, Scope: hist + " " + pat + " (" + in.Name + ")", Input: fw.Hex(in.B),
+				Observed: fmt.Sprintf("panic: %v at %s", pv, stk), Expected: "no panic while re-reading / re-encoding a decoded message after a buffer was overwritten"})
+		}
+	}
 	pats := append([]pattern{}, fixed...)
 	for _, o := range same {
 		pats = append(pats, nextPattern(o.Name, o.B))
@@ -248,7 +253,7 @@ func runInput(c *fw.Ctx, idx int, in Input, fixed []pattern, same []Input, other
 	for _, pt := range pats {
 		// H1
 		n++
-		fw.Safe(func() {
+		guard("H1", pt.name, func() {
 			buf := append([]byte(nil), in.B...)
 			m, err := decode(in.V6, buf)
 			if err != nil {
@@ -262,7 +267,7 @@ func runInput(c *fw.Ctx, idx int, in Input, fixed []pattern, same []Input, other
 		})
 		// H2
 		n++
-		fw.Safe(func() {
+		guard("H2", pt.name, func() {
 			m, err := decode(in.V6, append([]byte(nil), in.B...))
 			if err != nil {
 				return
@@ -285,7 +290,7 @@ func runInput(c *fw.Ctx, idx int, in Input, fixed []pattern, same []Input, other
 	// H3
 	for _, o := range others {
 		n++
-		fw.Safe(func() {
+		guard("H3", "then-decode("+o.Name+")", func() {
 			buf := append([]byte(nil), in.B...)
 			m, err := decode(in.V6, buf)
 			if err != nil {
